@@ -329,6 +329,11 @@ pub trait Allocator<VM: VMBinding>: Downcast {
                 .allow_oom_call
             {
                 self.out_of_memory(tls);
+            } else {
+                // We do not call the binding, but the request can never be satisfied.  Tell the
+                // slow path to give up (and return null) instead of retrying forever.
+                // Relaxed store is fine since this is a thread-local boolean.
+                self.get_context().thrown_oom.store(true, Ordering::Relaxed);
             }
             return true;
         }
